@@ -100,6 +100,15 @@ class ThreadingShim:
         return getattr(_real_threading, name)
 
 
+def nested_code_objects(co):
+    """co and every code object nested in it, in a stable order"""
+    out = [co]
+    for c in co.co_consts:
+        if isinstance(c, types.CodeType):
+            out.extend(nested_code_objects(c))
+    return out
+
+
 def code_objects_of(filenames):
     """every code object whose co_filename is one of filenames"""
     want = set(filenames)
@@ -201,6 +210,7 @@ class Sched:
         self.switches = 0
         self.clock_jumps = 0
         self.on_stable = None
+        self.wall_cap = 120.0
         self.ready = _real_threading.Semaphore(0)
 
     # ---- construction ----
@@ -364,9 +374,11 @@ class Sched:
         self.active = True
         self.decisions.append((0, -1, start.tid, "start"))
         start.sem.release()
-        self.ctl.acquire()
+        if not self.ctl.acquire(timeout=self.wall_cap):
+            # some thread is stuck outside the simulator's control (blocked on a real primitive)
+            self.aborted = self.aborted or "hang"
         self.active = False
         for t in self.threads:
-            t.thread.join(timeout=30)
+            t.thread.join(timeout=30 if self.aborted != "hang" else 0.01)
         mon.sched = None
         return self
